@@ -22,6 +22,22 @@ class BagV(tuple):
   """list whose element order is not part of the meaning (result of List / ArgMinK...): canonically sorted"""
 class SetV(frozenset):
   """result of Set"""
+class KBestV(tuple):
+  """result of ArgMinK / ArgMaxK: any list of the keys of K entries with the K smallest (largest) values, in order of value.
+  (pairs, K, largest)"""
+  def admits(self, got):
+    pairs, K, largest = self
+    if not isinstance(got, (list, tuple)): return False
+    n = min(K, len(pairs))
+    if len(got) != n: return False
+    vals = sorted((v for _, v in pairs), reverse=largest)[:n]
+    pool = list(pairs)
+    for key, v in zip(got, vals):
+      if (key, v) in pool: pool.remove((key, v))
+      else: return False
+    return True
+
+
 class OneOf(frozenset):
   """any of these values is admissible (tied ArgMin/ArgMax)"""
 
@@ -33,6 +49,7 @@ def ckey(v):
   if isinstance(v, (int, float)): return (2, v)
   if isinstance(v, str): return (3, v)
   if isinstance(v, RV): return (5, tuple((str(f), ckey(x)) for f, x in v))
+  if isinstance(v, KBestV): return (6, 0)
   if isinstance(v, (tuple, frozenset)): return (4, tuple(sorted(ckey(x) for x in v)) if isinstance(v, (frozenset, BagV)) else tuple(ckey(x) for x in v))
   raise Unsupported(repr(v))
 
@@ -60,6 +77,12 @@ def aggregate(op, vals):
     best = (min if op == 'ArgMin' else max)(p[1] for p in pairs)
     cands = frozenset(p[0] for p in pairs if p[1] == best)
     return next(iter(cands)) if len(cands) == 1 else OneOf(cands)
+  import re as _re
+  m = _re.match(r'Arg(Min|Max)(\d)$', op)
+  if m:
+    pairs = [v for v in vals if v is not None and v[1] is not None]
+    if not pairs: return None
+    return KBestV((tuple(pairs), int(m.group(2)), m.group(1) == 'Max'))
   vs = [v for v in vals if v is not None]
   if op in ('Sum', '+'): return sum(vs) if vs else None
   if op == 'Max': return max(vs) if vs else None
